@@ -193,7 +193,7 @@ def run(ctx):
     mc = tlc.run("Detect_MC", MC_CFG % (3 if ctx.quick else 12), ctx.workdir, dump=True, coverage=True, timeout=3000)
     ctx.model(mc, "Detect_MC reference satisfies relation; anchors partition; order/rotation free",
               vacuity=["PickRule", "PickGene", "PickPair"])
-    neg = tlc.run("Detect_MC", NEG_CFG, ctx.workdir, tag="_neg", timeout=3000)
+    neg = tlc.run("Detect_MC", NEG_CFG, ctx.workdir, tag="_neg", timeout=3000, workers=1, seed=1)  # sampled model: fixed draw
     ctx.expect_violation(neg, "StaleCacheDesign", "stale / window-dependent circular_origin flag in apply_cluster_rules (P1, P17 on the model)")
     rules, genes = load_catalogues(mc)
     cases = build_cases(ctx, rng, rules, genes)
